@@ -548,6 +548,10 @@ def run(ctx: Ctx, rep: Report, tier: str):
     section(rep, lambda: fs_events_trim_after_delivery(ctx, rep, "C16.P11"))
     rep.rule("C16.P12", "a case-only rename is a rename for the mock too: MockProvider.rename's no-op shortcut is exact path equality", 1)
     section(rep, lambda: mock_rename_noop_is_exact(ctx, rep, "C16.P12"))
+    from rules.common import alias as _alias13
+    from rules.C13 import C13 as _C13
+    _alias13(rep, ["C13.Z5"], "C16.P13", "a provider reports the names it was given: the relative part that listings and renames are built from is cut from the un-folded path (C13.Z5)", 2,
+             lambda: _C13(ctx, rep).z5())
     from rules.decisions import decision_table, table_sites
     rep.rule("C16.DT", "decision table (rules/decisions.json) of the mock and filesystem providers and the provider base class operations: for every function and every action shape (an impure call with the parameters it passes, a store to an "
              "attribute or item, a delete, a returned constant, a yield, a raise) the set of states - over the function's guard atoms - in which the action is taken "
